@@ -423,3 +423,70 @@ def r17_6_fraction_separator(ctx: Ctx) -> RuleResult:
         else:
             rr.ok({"action": g.qual, "separator": "conditional, true whenever a digit follows"})
     return rr
+
+
+@rule("C17")
+def r17_7_sign_predicates(ctx: Ctx) -> RuleResult:
+    """The sign character of an Offset / Duration is chosen by the `non_negative_predicate` handed to add_required_sign /
+    add_negative_only_sign; the magnitude is then written from absolute components.  The predicate must therefore be true exactly
+    for values >= zero - a predicate that looks at one component only (the hours) writes `+` for small negative values, which
+    every reader takes for a positive value.  Each predicate is evaluated by the abstract interpreter on sample values around
+    zero and around every component boundary."""
+    from ..absint import Iv, Obj, State
+    from ..kit import bind_args
+    from ..oblig import interp
+
+    rr = RuleResult("R17.7", "sign predicates of Offset and Duration patterns are true exactly for non-negative values (evaluated around zero and the component boundaries)", min_instances=4)
+    M = ctx.M
+    npd = M.fold_class_const("PyodaConstants", "NANOSECONDS_PER_DAY")
+    samples = {
+        "Offset": [("seconds", s, Obj("Offset", {mangle("Offset", "__seconds"): Iv(s, s)}), s >= 0) for s in (0, 1, -1, 59, -59, 60, -60, 1800, -1800, 3599, -3599, 3600, -3600, 3601, -3601, 64800, -64800)],
+        "Duration": [("days/nanos", (d, n), Obj("Duration", {mangle("Duration", "__days"): Iv(d, d), mangle("Duration", "__nano_of_day"): Iv(n, n)}), d >= 0) for d in (-2, -1, 0, 1) for n in (0, 1, npd - 1)],
+    }
+    for f in sorted(set(M.func_of_node.values()), key=lambda x: x.qual):
+        if isinstance(f.node, ast.Lambda) or "/text/" not in f.mod.rel:
+            continue
+        for c in own_nodes(f.node):
+            if not (isinstance(c, ast.Call) and isinstance(c.func, ast.Attribute) and c.func.attr in ("add_required_sign", "add_negative_only_sign")):
+                continue
+            tg, how = ctx.R.callees(c, f, count=False)
+            if how != "resolved" or not tg:
+                continue
+            pe = bind_args(c, tg[0]).get("non_negative_predicate")
+            if pe is None:
+                continue
+            rr.inst()
+            pred = None
+            if isinstance(pe, ast.Lambda):
+                pred = next((l for l in f.lambdas if l.node is pe), None)
+            elif isinstance(pe, ast.Name):
+                pred = f.nested.get(pe.id) or (f.parent.nested.get(pe.id) if f.parent else None)
+            if pred is None:
+                rr.fail(f.qual, f"sign predicate `{unparse(pe)[:50]}` not resolved to a function of this module", ctx.loc(f, c))
+                continue
+            ann = pred.params[0].annotation if not isinstance(pred.node, ast.Lambda) and pred.params and pred.params[0].annotation is not None else None
+            tname = unparse(ann) if ann is not None else ("Duration" if "Duration" in f.qual else "Offset")
+            sam = samples.get(tname.strip("'\""))
+            if sam is None:
+                rr.fail(f.qual, f"sign predicate takes a {tname}: no sample values", ctx.loc(f, c))
+                continue
+            bad = None
+            for label, raw, obj, want in sam:
+                I = interp(ctx)
+                I.max_depth = 4
+                if isinstance(pred.node, ast.Lambda):
+                    v = I.ev(pred.node.body, State({pred.node.args.args[0].arg: obj}), f, 0)
+                    vals = [v]
+                else:
+                    rets, _ = I.analyse(pred, params={pred.params[0].arg: obj})
+                    vals = [v for v, _ in rets]
+                rr.states += 1
+                ok = len(vals) >= 1 and all(isinstance(v, Iv) and v.const and bool(v.lo) == want for v in vals)
+                if not ok:
+                    bad = (label, raw, [repr(v) for v in vals][:2], want)
+                    break
+            if bad is None:
+                rr.ok({"site": f.qual, "predicate": unparse(pe)[:50], "samples": len(sam)})
+            else:
+                rr.fail(f.qual, f"sign predicate `{unparse(pe)[:40]}` gives {bad[2]} for {tname} {bad[0]}={bad[1]}, which is {'non-negative' if bad[3] else 'negative'}: the sign written does not match the value", ctx.loc(f, c))
+    return rr
